@@ -10,8 +10,8 @@ from . import _eval as E
 
 ID = "C13"
 SETS = {
-    "quick": ["U1L_all", "R2K", "P:P0q", "P:P4q", "P:P6q"],
-    "thorough": ["U1L_all", "U2K", "P:P0", "P:P4", "P:P6"],
+    "quick": ["U1L_all", "R2K", "P:P0q", "P:P4q", "P:P6q", "P:P7q"],
+    "thorough": ["U1L_all", "U2K", "P:P0", "P:P4", "P:P6", "P:P7"],
 }
 WR = {"quick": (2, 2), "thorough": (2, 3)}
 STEP = 40
@@ -40,6 +40,22 @@ def run_bytes_literals(res):
         (list[typing.Literal[b"x", "y"]], [[b"x", "y"], []]),
         (typing.Optional[typing.Literal[b"null"]], [b"null", None]),
         (dict[str, typing.Literal[b"a", 2]], [{"k": b"a", "j": 2}]),
+    ]
+    import enum
+
+    class EBytes(bytes, enum.Enum):  # members ARE bytes instances
+        P = b"\x89PNG"
+        G = b"GIF8"
+        N = b"null"
+        E = b""
+
+    members = list(EBytes)
+    cases += [
+        (EBytes, members),
+        (list[EBytes], [members, []]),
+        (typing.Optional[EBytes], members + [None]),
+        (dict[EBytes, int], [{m: i for i, m in enumerate(members)}]),
+        (tuple[EBytes, str], [(EBytes.G, "x")]),
     ]
     for T_, vals in cases:
         cold.clear_all()
